@@ -272,6 +272,85 @@ func c13Project(cfg *config.Config) string {
 	return strings.Join(l, ",")
 }
 
+// c13Shared walks two configurations in parallel and returns the paths at which both hold the SAME pointer,
+// map or slice (a write through one would be visible through the other); "ALL" when they are one object.
+func c13Shared(a, b *config.Config) string {
+	if a == nil || b == nil {
+		return "-"
+	}
+	if a == b {
+		return "ALL"
+	}
+	var out []string
+	var walk func(prefix string, x, y reflect.Value)
+	walk = func(prefix string, x, y reflect.Value) {
+		if !x.IsValid() || !y.IsValid() || x.Type() != y.Type() {
+			return
+		}
+		switch x.Kind() {
+		case reflect.Interface:
+			if !x.IsNil() && !y.IsNil() {
+				walk(prefix, x.Elem(), y.Elem())
+			}
+		case reflect.Ptr:
+			if x.IsNil() || y.IsNil() {
+				return
+			}
+			if x.Pointer() == y.Pointer() {
+				out = append(out, prefix)
+				return
+			}
+			walk(prefix, x.Elem(), y.Elem())
+		case reflect.Struct:
+			t := x.Type()
+			for i := 0; i < t.NumField(); i++ {
+				if !t.Field(i).IsExported() {
+					continue
+				}
+				tag := strings.Split(t.Field(i).Tag.Get("json"), ",")[0]
+				if tag == "" || tag == "-" {
+					tag = "~" + strings.ToLower(t.Field(i).Name)
+				}
+				p := tag
+				if prefix != "" {
+					p = prefix + "." + tag
+				}
+				walk(p, x.Field(i), y.Field(i))
+			}
+		case reflect.Map:
+			if x.IsNil() || y.IsNil() || x.Len() == 0 {
+				return
+			}
+			if x.Pointer() == y.Pointer() {
+				out = append(out, prefix)
+				return
+			}
+			for _, k := range x.MapKeys() {
+				if yv := y.MapIndex(k); yv.IsValid() {
+					walk(prefix+"."+fmt.Sprint(k.Interface()), x.MapIndex(k), yv)
+				}
+			}
+		case reflect.Slice:
+			if x.IsNil() || y.IsNil() || x.Len() == 0 || y.Len() == 0 {
+				return
+			}
+			if x.Pointer() == y.Pointer() {
+				out = append(out, prefix)
+				return
+			}
+			for i := 0; i < x.Len() && i < y.Len(); i++ {
+				walk(prefix+"."+strconv.Itoa(i), x.Index(i), y.Index(i))
+			}
+		}
+	}
+	walk("", reflect.ValueOf(a).Elem(), reflect.ValueOf(b).Elem())
+	sort.Strings(out)
+	if len(out) == 0 {
+		return "-"
+	}
+	return strings.Join(out, ",")
+}
+
 func c13ProjectFile(path string) string {
 	data, err := os.ReadFile(path)
 	if err != nil {
@@ -419,10 +498,10 @@ func c13Err(err error) string {
 	return "othererr"
 }
 
-type c13State struct{ comps [9]string }
+type c13State struct{ comps [10]string }
 
-func (cd *ConfigManager) c13Snapshot(goodStartup, goodVerDir string) [9]string {
-	var s [9]string
+func (cd *ConfigManager) c13Snapshot(goodStartup, goodVerDir string) [10]string {
+	var s [10]string
 	r, _ := cd.GetRunning()
 	st, _ := cd.GetStartup()
 	s[0] = c13Project(r)
@@ -454,6 +533,15 @@ func (cd *ConfigManager) c13Snapshot(goodStartup, goodVerDir string) [9]string {
 	s[5] = c13Versions(vs)
 	s[6] = c13VersionFiles(goodVerDir)
 	s[7] = strconv.FormatUint(cd.nextSessionID, 10)
+	// H: disjointness — what each candidate shares with running (and running with startup)
+	var hs []string
+	for _, id := range ids {
+		if sess := cd.sessions[conf.SessionID(id)]; sess != nil {
+			hs = append(hs, "c:"+c13Shared(sess.config, r))
+		}
+	}
+	hs = append(hs, "s:"+c13Shared(st, r))
+	s[9] = strings.Join(hs, "+")
 	// D: what the routing daemon runs — nothing loaded yet / the rendering of the running config / something else
 	s[8] = "none"
 	if data, err := os.ReadFile(filepath.Join(filepath.Dir(goodStartup), "frr.applied")); err == nil {
@@ -465,7 +553,7 @@ func (cd *ConfigManager) c13Snapshot(goodStartup, goodVerDir string) [9]string {
 	return s
 }
 
-var c13Names = [9]string{"R", "S", "F", "C", "L", "V", "W", "N", "D"}
+var c13Names = [10]string{"R", "S", "F", "C", "L", "V", "W", "N", "D", "H"}
 
 func c13RunCase(line string, root string, idx int, templates string) (res string) {
 	defer func() {
